@@ -32,6 +32,10 @@ func (a *Addressing) ExtractMailbox(address string) (string, error) {
 	if err != nil {
 		return "", err
 	}
+	if local == "" {
+		// Nothing but a +extension, e.g. "+tag@example.com".
+		return "", errors.New("mailbox name cannot be empty")
+	}
 
 	if a.Config.MailboxNaming == config.LocalNaming {
 		return local, nil
